@@ -37,4 +37,61 @@ theorem encodeString_then_decodeAll (t : Tree) (k : Nat) (table : Nat → Option
   rw [← hs] at hz
   exact decodeAll_spec t k table hT fuel [] bytes w _ _ o (encode_eq_encBits t cwOf w hm) hnz hz hd
 
+/-- A NUL-terminated string: the terminator is its last symbol and occurs nowhere else. -/
+def Terminated (w : List Nat) : Prop := w.getLast? = some 0 ∧ ∀ i, i + 1 < w.length → w[i]? ≠ some 0
+
+/-- **Coded keys are distinct**: two different NUL-terminated strings never get the same bytes from
+`encodeString` (the hash kinds HASHHF and HASHUFFDAC use these bytes as the keys of their table). -/
+theorem encodeString_injective (t : Tree) (cwOf : Nat → Nat × Nat) (hb : ∀ s, (cwOf s).2 ≤ 32)
+    (w w' : List Nat) (hm : TableMatches t cwOf w) (hm' : TableMatches t cwOf w')
+    (hw : Terminated w) (hw' : Terminated w') (bytes : List Nat)
+    (he : encodeString cwOf w 0 0 [] = some bytes) (he' : encodeString cwOf w' 0 0 [] = some bytes) : w = w' := by
+  obtain ⟨out, ho, pad, hbits⟩ := encodeString_spec cwOf hb w 0 0 [] (by omega) (clean_zero 0)
+  obtain ⟨out', ho', pad', hbits'⟩ := encodeString_spec cwOf hb w' 0 0 [] (by omega) (clean_zero 0)
+  rw [he] at ho; rw [he'] at ho'
+  simp only [Option.some.injEq] at ho ho'
+  subst ho; subst ho'
+  have hs : encBits cwOf w ++ List.replicate pad false = encBits cwOf w' ++ List.replicate pad' false := by
+    have a : bytes.flatMap byteBits = encBits cwOf w ++ List.replicate pad false := by rw [hbits]; simp [written]
+    have b : bytes.flatMap byteBits = encBits cwOf w' ++ List.replicate pad' false := by rw [hbits']; simp [written]
+    rw [← a, ← b]
+  have hd := decode_encode t w _ (List.replicate pad false) (encode_eq_encBits t cwOf w hm)
+  have hd' := decode_encode t w' _ (List.replicate pad' false) (encode_eq_encBits t cwOf w' hm')
+  -- compare the two decodings of the same stream at the shorter length
+  have key : ∀ (a b : List Nat) (pa pb : Nat), Terminated a → Terminated b → a.length ≤ b.length →
+      encBits cwOf a ++ List.replicate pa false = encBits cwOf b ++ List.replicate pb false →
+      decode t a.length (encBits cwOf a ++ List.replicate pa false) = some (a, List.replicate pa false) →
+      decode t b.length (encBits cwOf b ++ List.replicate pb false) = some (b, List.replicate pb false) → a = b := by
+    intro a b pa pb ha hb' hle hst da db
+    have e : b.length = a.length + (b.length - a.length) := by omega
+    rw [e] at db
+    obtain ⟨r', hr'⟩ := decode_prefix t a.length _ _ _ _ db
+    rw [← hst, da] at hr'
+    simp only [Option.some.injEq, Prod.mk.injEq] at hr'
+    have hab : a = b.take a.length := hr'.1
+    -- the terminator of `a` sits at position |a|-1 of `b`, which must then be the last position of `b`
+    have hapos : 0 < a.length := by
+      rcases Nat.eq_zero_or_pos a.length with h0 | h0
+      · have : a = [] := List.eq_nil_of_length_eq_zero h0
+        rw [this] at ha; simp [Terminated] at ha
+      · exact h0
+    have hlast : b[a.length - 1]? = some 0 := by
+      have h1 := ha.1
+      rw [List.getLast?_eq_getElem?] at h1
+      rw [hab] at h1
+      rw [List.getElem?_take] at h1
+      simp only [List.length_take] at h1
+      have e1 : min a.length b.length - 1 < a.length := by omega
+      rw [if_pos e1] at h1
+      have e2 : min a.length b.length - 1 = a.length - 1 := by omega
+      rw [e2] at h1; exact h1
+    have hlen : a.length = b.length := by
+      rcases Nat.lt_or_ge a.length b.length with h | h
+      · exact absurd hlast (hb'.2 (a.length - 1) (by omega))
+      · omega
+    rw [hab, hlen, List.take_length]
+  rcases Nat.le_total w.length w'.length with h | h
+  · exact key w w' pad pad' hw hw' h hs hd hd'
+  · exact (key w' w pad' pad hw' hw h hs.symm hd' hd).symm
+
 end CSD.StatCoder
